@@ -315,6 +315,15 @@ func (ev *SpecEnv) ident(name string) (Val, types.Type) {
 			}
 			return nr.V, nr.Typ
 		}
+		// a named result that no instruction ever assigns (every return states its value explicitly): it keeps
+		// its zero value throughout
+		if res := ev.fr.Fn.Signature.Results(); res != nil {
+			for i := 0; i < res.Len(); i++ {
+				if res.At(i).Name() == name && !assignsLocal(ev.fr.Fn, name) {
+					return ev.ex.zeroVal(ev.st, res.At(i).Type()), res.At(i).Type()
+				}
+			}
+		}
 	}
 	if t := ev.ex.P.LookupType(name, ev.pkg); t != nil {
 		return KindV{t}, nil
@@ -1110,6 +1119,33 @@ func (ev *SpecEnv) callExpr(x *ast.CallExpr) (Val, types.Type) {
 	if uf, ok := ev.ex.P.CS.UFuns[name]; ok {
 		if len(uf.Args) != argc {
 			ev.fail("ufun %s expects %d args", name, len(uf.Args))
+		}
+		if sf, isAbs := ev.ex.P.CS.SpecFuns["abs:"+name]; isAbs && argc > 0 && len(sf.Params) == argc {
+			// an abstraction function: where its first argument is a modelled object (the module's own functions are
+			// being verified) it means its definition over that object's fields; applied to a reference into the
+			// read-only heap (clients) it stays uninterpreted
+			{
+				pv, _ := ev.eval(x.Args[0])
+				if p, ok := pv.(PtrV); ok && p.K == PCell {
+					sub := *ev
+					sub.vars = map[string]Val{}
+					sub.vtypes = map[string]types.Type{}
+					for i, pn := range sf.Params {
+						v, t := ev.eval(x.Args[i])
+						sub.vars[pn] = v
+						sub.vtypes[pn] = t
+					}
+					if sf.Pkg != "" && (ev.pkg == nil || ev.pkg.Path() != sf.Pkg) {
+						for _, sp := range ev.ex.P.Prog.AllPackages() {
+							if sp.Pkg.Path() == sf.Pkg {
+								sub.pkg = sp.Pkg
+								break
+							}
+						}
+					}
+					return sub.eval(sf.Expr)
+				}
+			}
 		}
 		var args []*Term
 		for _, a := range x.Args {
